@@ -139,6 +139,14 @@ class Fn:
                 if op:
                     return f"({a} {op} {b})", "N"
             raise Unsupported(f"binary operation {ast.unparse(e)} on {ka},{kb}")
+        if isinstance(e, ast.JoinedStr) and len(e.values) == 1 and isinstance(e.values[0], ast.FormattedValue) \
+                and e.values[0].conversion == -1 and isinstance(e.values[0].format_spec, ast.JoinedStr) \
+                and len(e.values[0].format_spec.values) == 1 and isinstance(e.values[0].format_spec.values[0], ast.Constant):
+            spec = e.values[0].format_spec.values[0].value
+            a, ka = self.expr(e.values[0].value, out, ind)
+            if ka == "N" and len(spec) >= 3 and spec[0] == "0" and spec[-1] == "d" and spec[1:-1].isdigit():
+                return f"(zfill ({int(spec[1:-1])} : Nat) (pyStr {a}))", "S"
+            raise Unsupported("f-string " + ast.unparse(e))
         if isinstance(e, ast.Subscript) and isinstance(e.slice, ast.Slice):
             a, ka = self.expr(e.value, out, ind)
             if ka not in ("B", "S"):
@@ -241,6 +249,38 @@ class Fn:
             if ka == "SB":
                 return f"{a}.len", "N"
             raise Unsupported("len of " + ka)
+        if fs in ("bytearray", "bytes") and len(e.args) == 1 and not e.keywords and isinstance(e.args[0], ast.GeneratorExp):
+            # `bytes(<A if C else B> for x in bytearray(K))`: a map over the bytes of K
+            g = e.args[0]
+            if len(g.generators) != 1 or g.generators[0].ifs or g.generators[0].is_async or not isinstance(g.generators[0].target, ast.Name):
+                raise Unsupported("generator expression " + ast.unparse(g)[:60])
+            it = g.generators[0].iter
+            if isinstance(it, ast.Call) and ast.unparse(it.func) in ("bytearray", "bytes") and len(it.args) == 1 and not it.keywords:
+                it = it.args[0]
+            src, ks = self.expr(it, out, ind)
+            if ks != "B":
+                raise Unsupported("generator expression over " + ks)
+            x = g.generators[0].target.id
+            saved = dict(self.types)
+            self.types[x] = "U8"
+            inner = []
+
+            def elem(t):
+                if isinstance(t, ast.Name) and t.id == x:
+                    return v(x)
+                if isinstance(t, ast.BinOp) and isinstance(t.left, ast.Name) and t.left.id == x and const_int(t.right) is not None \
+                        and isinstance(t.op, (ast.BitXor, ast.BitOr, ast.BitAnd)):
+                    return f"{v(x)} {({ast.BitXor: '^^^', ast.BitOr: '|||', ast.BitAnd: '&&&'})[type(t.op)]} {const_int(t.right)}"
+                raise Unsupported("generator element " + ast.unparse(t))
+            if isinstance(g.elt, ast.IfExp):
+                c, _ = self.truthy(g.elt.test, inner, ind)
+                body = f"if {c} then {elem(g.elt.body)} else {elem(g.elt.orelse)}"
+            else:
+                body = elem(g.elt)
+            self.types = saved
+            if inner:
+                raise Unsupported("monadic call in a generator expression")
+            return f"({src}.map fun {v(x)} => {body})", "B"
         if fs in ("bytearray", "bytes") and len(e.args) == 1 and not e.keywords:
             return self.expr(e.args[0], out, ind)
         if isinstance(f, ast.Attribute) and f.attr == "update" and len(e.args) == 1:
@@ -319,6 +359,21 @@ class Fn:
                 a, ka = self.expr(ia[0].func.value, out, ind)
                 if ka == "B":
                     return f"(pyStr (fromBE {a}))", "S"
+        # the same conversion written in steps: `n = int(x.hex(), 16)`, `str(n)`, `format(n, "05d")`
+        if fs == "int" and len(e.args) == 2 and const_int(e.args[1]) == 16 and isinstance(e.args[0], ast.Call) \
+                and isinstance(e.args[0].func, ast.Attribute) and e.args[0].func.attr == "hex" and not e.args[0].args:
+            a, ka = self.expr(e.args[0].func.value, out, ind)
+            if ka == "B":
+                return f"(fromBE {a})", "N"
+        if fs == "str" and len(e.args) == 1:
+            a, ka = self.expr(e.args[0], out, ind)
+            if ka == "N":
+                return f"(pyStr {a})", "S"
+        if fs == "format" and len(e.args) == 2 and isinstance(e.args[1], ast.Constant) and isinstance(e.args[1].value, str):
+            spec = e.args[1].value
+            a, ka = self.expr(e.args[0], out, ind)
+            if ka == "N" and len(spec) >= 3 and spec[0] == "0" and spec[-1] == "d" and spec[1:-1].isdigit():
+                return f"(zfill ({int(spec[1:-1])} : Nat) (pyStr {a}))", "S"
         if fs in self.local_fns or (self.rec and fs == self.rec[0]):
             if self.rec and fs == self.rec[0]:
                 lean, clos, kinds, rk = self.rec[3]
